@@ -86,8 +86,10 @@ fn field_name<'a>(input: &mut &'a [u8]) -> ModalResult<&'a str, InputError<&'a [
     }
     pos += 1;
 
-    // Continue with alphanumeric and underscores
-    while pos < input.len() && (input[pos].is_ascii_alphanumeric() || input[pos] == b'_') {
+    // Continue with alphanumeric and underscores; underscores don't repeat.
+    while pos < input.len()
+        && (input[pos].is_ascii_alphanumeric() || (input[pos] == b'_' && input[pos - 1] != b'_'))
+    {
         pos += 1;
     }
 
@@ -234,6 +236,10 @@ fn interface_name<'a>(input: &mut &'a [u8]) -> ModalResult<&'a str, InputError<&
     while pos < input.len() && (input[pos].is_ascii_alphanumeric() || input[pos] == b'-') {
         pos += 1;
     }
+    // Dashes only ever separate alphanumeric characters: they can't end a segment.
+    if input[pos - 1] == b'-' {
+        return Err(ErrMode::Backtrack(ParserError::from_input(input)));
+    }
 
     let mut found_dot = false;
     // Subsequent segments: .[A-Za-z0-9]([-]*[A-Za-z0-9])*
@@ -250,6 +256,9 @@ fn interface_name<'a>(input: &mut &'a [u8]) -> ModalResult<&'a str, InputError<&
         // Continue with alphanumeric and dashes
         while pos < input.len() && (input[pos].is_ascii_alphanumeric() || input[pos] == b'-') {
             pos += 1;
+        }
+        if input[pos - 1] == b'-' {
+            return Err(ErrMode::Backtrack(ParserError::from_input(input)));
         }
     }
 
